@@ -32,7 +32,10 @@ ModelTargets(q) ==
               ELSE IF t.kind \in {"exe", "custom"} THEN {MT(q, i, "", TRUE)}
               ELSE {MT(q, i, ty, ty = "shared" \/ LibTypes(q, t) = {"static"}) : ty \in LibTypes(q, t)}
              : i \in Targets(q)}
-ModelCase(q) == [id |-> "model", p |-> q, M |-> ModelGraph(q), targets |-> SetToSeq(ModelTargets(q))]
+ModelCase(q) ==
+    LET g == ModelGraph(q)
+        gc == [g EXCEPT !.edges = [k \in DOMAIN g.edges |-> g.edges[k] @@ [cc |-> g.edges[k].rule = "c_COMPILER"]]]
+    IN [id |-> "model", p |-> q, M |-> gc, targets |-> SetToSeq(ModelTargets(q))]
 
 IntroRelationHoldsOnModel ==
     (started /\ built = {} /\ ~Collides(p)) =>
